@@ -25,12 +25,14 @@ input (`out` = bytes produced, `fin` = how it ends), `compress` is zlib's `compr
 derivation and the laws in `ZLaw` are the assumed zlib behaviour (trusted base), exercised against
 the real zlib by the correspondence run.
 
-The model follows the code WITH the three fixes in /verif/fixes/C18-*.diff:
+The model follows the code WITH the three fixes /verif/fixes/C18-*.diff (committed to /repo as
+30802b5, 747b2ec, ee998a0):
   * provide-size-check: a record whose declared size exceeds the inflated data closes the
-    connection (unfixed code: the callback receives `size` bytes, the tail uninitialised heap);
+    connection (before: the callback received `size` bytes, the tail uninitialised heap);
   * sendmutex-unlock: `rfbSendServerCutTextUTF8` with a classic client and no fallback releases
-    `sendMutex` (unfixed code: the next publish dead-locks) — the model has no lock state;
-  * client-cuttext-negate: length 0x80000000 is negated as uint32 (unfixed code: signed overflow).
+    `sendMutex` (before: the next publish, or reaping that client, dead-locked) — the model has no
+    lock state, the harness observes a hang as `HANG`;
+  * client-cuttext-negate: length 0x80000000 is negated as uint32 (before: signed overflow).
 Core Lean only.
 -/
 namespace VncModel.Clip
@@ -131,6 +133,7 @@ structure Env where
 /-- clipboard-related part of `rfbClientRec` -/
 structure Cl where
   isOpen : Bool := true            -- `sock != RFB_INVALID_SOCKET`
+  normal : Bool := true            -- `state == RFB_NORMAL` (false: still in the handshake)
   viewOnly : Bool := false
   ext : Bool := false              -- `enableExtendedClipboard`
   userCap : Nat := defaultUserCap  -- `extClipboardUserCap` (uint32)
@@ -295,7 +298,8 @@ def stepMsg (Z : Zlib) (env : Env) (cfg : Cfg) (cl : Cl) (input : Bytes) : Step 
     else if t.toNat = msgSetEncodings then stepEnc cfg cl input
     else .unmodelled
 
-/-- everything the server does with the bytes `input` arriving on one NORMAL connection (one
+/-- everything the server does with the bytes `input` arriving on one NORMAL connection (the
+handshake states are other properties' subject; the driver never feeds a handshake client) (one
 message per `rfbProcessClientMessage`, repeated until the data is used up or the client is closed) -/
 def feed (Z : Zlib) (env : Env) (cfg : Cfg) (cl : Cl) (input : Bytes) : FeedRes :=
   match input with
@@ -313,14 +317,15 @@ decreasing_by
   simp only [List.length_drop, List.length_cons]
   omega
 
-/-- `rfbSendServerCutText` for one client yielded by the iterator (every client whose socket is
-open, whatever its protocol state) -/
+/-- `rfbSendServerCutText` for one client yielded by the iterator (socket open); a client that is
+not yet in state RFB_NORMAL is skipped (/repo 8f8266a) -/
 def sendClassicOne (cl : Cl) (t : Bytes) : List SMsg :=
-  if cl.isOpen then [.classic t] else []
+  if cl.isOpen && cl.normal then [.classic t] else []
 
-/-- `rfbSendServerCutTextUTF8(screen, t, |t|, fb, |fb|)` for one client -/
+/-- `rfbSendServerCutTextUTF8(screen, t, |t|, fb, |fb|)` for one client; closed clients are not
+yielded by the iterator, handshake clients are skipped: neither gets a message nor a cache update -/
 def sendUtf8One (cl : Cl) (t : Bytes) (fb : Option Bytes) : Cl × List SMsg :=
-  if !cl.isOpen then (cl, []) else
+  if !cl.isOpen || !cl.normal then (cl, []) else   -- skipped before anything is cached or locked
   if cl.ext then
     let d := t ++ [0]
     let cl' := { cl with data := some d }
